@@ -46,9 +46,11 @@ string extractFuncname( const string& pretty_funcname)
    auto  first_parenthesis = pretty_funcname.find_first_of( '(');
 
    // function/method that returns a pointer to a function starts
-   // with '<type> (* <funcname>(...'
-   // so, if we have '(*', search for the next parenthesis
-   if (pretty_funcname[ first_parenthesis + 1] == '*')
+   // with '<type> (* <funcname>(...', one that returns a reference to an array
+   // or a function with '<type> (&<funcname>(...'
+   // so, if we have '(*' or '(&', search for the next parenthesis
+   if ((pretty_funcname[ first_parenthesis + 1] == '*')
+       || (pretty_funcname[ first_parenthesis + 1] == '&'))
       first_parenthesis = pretty_funcname.find_first_of( '(', first_parenthesis + 1);
 
    // operator()(....
@@ -107,9 +109,12 @@ string extractFuncname( const string& pretty_funcname)
    } // end while
 
 #ifdef __clang__
-   // used for clang ...
-   if ((pretty_funcname[ first_space] == '&')
-       || (pretty_funcname[ first_space] == '*'))
+   // used for clang: "T **name(", "T &&name(" and "T (*name(" are written
+   // without a space in front of the name
+   while ((first_space < first_parenthesis)
+          && ((pretty_funcname[ first_space] == '&')
+              || (pretty_funcname[ first_space] == '*')
+              || (pretty_funcname[ first_space] == '(')))
       ++first_space;
 #endif
 
